@@ -2,7 +2,7 @@ SPECIFICATION Spec
 CONSTANTS
   MaxVocab = 3
   MaxTags = 3
-  NTags = 6
+  NTags = 5
   SmallTags = 1
   KeyMode = "term_value"
   HashMode = "code"
